@@ -20,3 +20,11 @@ package helpers
 // CalculateFilterPodsUsed calls its two filter parameters dynamically ("havoc:dynamic call of a function value"
 // when verified on its own), so it carries no contract here: callers that pass function constants get it inlined
 // (see cpusuppress.calculateBESuppressCPU), where the system part max(reserved, max(0, ...)) is checked in place.
+
+// Which host applications are charged to the non-BE side of the budget: every one except those that are both declared BE
+// and placed under the kubepods best-effort cgroup directory (only those are confined by the BE cpuset / quota; a BE host
+// application without an explicit cgroup path runs in the default host directory and is not).
+//@ func NonBEHostAppFilter [C10]
+//@   requires hostAppSpec != nil
+//@   ensures #confined: !result <==> (hostAppSpec.QoS == apiext.QoSBE && hostAppSpec.CgroupPath != nil && hostAppSpec.CgroupPath.Base == slov1alpha1.CgroupBaseTypeKubeBesteffort)
+//@   modifies nothing
